@@ -53,7 +53,28 @@ def in_string(line, pos):
     return line[:pos].count('"') % 2 == 1 or line[:pos].count("`") % 2 == 1
 
 
-def mutants_of(path, src):
+STMT = re.compile(r"^\t+(?:[A-Za-z_][\w.\[\]]*(?:\([^{}]*\))?\s*(?:=|\+=|-=|\+\+|--)[^=].*|[A-Za-z_][\w.]*\([^{}]*\))$")
+NUM = re.compile(r"(?<![\w.\"'])([2-9]|[1-9][0-9]+)(?![\w.\"'xX])")
+
+
+def extra_mutants(path, lines, ln, line, code):
+    """Second family: a deleted simple statement, an integer constant off by one."""
+    out = []
+    if STMT.match(code.rstrip()) and not code.strip().startswith(("return", "defer", "go ", "case", "default")):
+        mid = hashlib.sha1(f"{path}:{ln}:del".encode()).hexdigest()[:12]
+        out.append({"id": mid, "file": path, "line": ln + 1, "op": "delete-statement", "old": line.strip(), "new": "",
+                    "_ln": ln, "_newline": ""})
+    for m in NUM.finditer(code):
+        if in_string(code, m.start()):
+            continue
+        new = line[:m.start()] + str(int(m.group(1)) + 1) + line[m.end():]
+        mid = hashlib.sha1(f"{path}:{ln}:{m.start()}:num".encode()).hexdigest()[:12]
+        out.append({"id": mid, "file": path, "line": ln + 1, "op": "const+1", "old": line.strip(), "new": new.strip(),
+                    "_ln": ln, "_newline": new})
+    return out
+
+
+def mutants_of(path, src, family="tokens"):
     out = []
     lines = src.split("\n")
     in_block = False
@@ -68,6 +89,9 @@ def mutants_of(path, src):
         if s.startswith("//") or s.startswith("import") or s.startswith("package"):
             continue
         code = code_part(line)
+        if family == "extra":
+            out.extend(extra_mutants(path, lines, ln, line, code))
+            continue
         for rx, rep, name in OPS:
             for m in re.finditer(rx, code):
                 if in_string(code, m.start()):
@@ -155,6 +179,7 @@ def main():
     ap.add_argument("--files", nargs="*", default=[])
     ap.add_argument("--out", default=os.path.join(ROOT, "mutants", "sweep.jsonl"))
     ap.add_argument("--sample", type=int, default=0, help="take every n-th mutant of each file")
+    ap.add_argument("--family", default="tokens", help="tokens (operators, constants true/false) or extra (deleted statements, integer constants)")
     a = ap.parse_args()
     os.makedirs(os.path.dirname(a.out), exist_ok=True)
     amap = anchors()
@@ -173,7 +198,7 @@ def main():
         full = os.path.join(REPO, f)
         if not os.path.exists(full):
             continue
-        ms = mutants_of(f, open(full).read())
+        ms = mutants_of(f, open(full).read(), a.family)
         if a.sample > 1:
             ms = ms[::a.sample]
         allm.extend(ms)
